@@ -230,33 +230,61 @@ fn looks_like_request<const N: usize>(b: &[u8; N], n: usize) -> bool {
     found
 }
 
-fn handle_any<const N: usize>() {
-    let pkt: [u8; N] = kani::any();
+/// Unstructured datagram with a concrete first octet (sdoId high nibble + messageType): with a
+/// symbolic first octet the parser explores all ten body types and the run exhausts 8 GB.
+fn handle_other<const N: usize>(byte0: u8) {
+    let mut pkt: [u8; N] = kani::any();
+    pkt[0] = byte0;
+    let n: usize = kani::any();
+    kani::assume(n <= N);
+    let env = any_env();
+    let rec = run(&env, &pkt[..n]);
+    assert!(rec.ev_calls == 0 && rec.gn_calls == 0, "nothing is sent for a datagram that is not a CSPTP Sync");
+}
+
+fn handle_any<const N: usize>(byte0: u8) {
+    let mut pkt: [u8; N] = kani::any();
+    pkt[0] = byte0;
     let n: usize = kani::any();
     kani::assume(n <= N);
     let env = any_env();
     let rec = run(&env, &pkt[..n]);
     if rec.ev_calls == 0 {
-        assert!(rec.gen_calls == 0, "no follow-up without a response");
-        kani::cover!(n >= 52 && pkt[0] == 0x30, "long Sync-typed datagram not answered");
+        assert!(rec.gn_calls == 0, "no follow-up without a response");
+        kani::cover!(n >= 52 && be16(&pkt, 44) == 0xff00, "Sync with a request TLV type but not answered (malformed)");
         return;
     }
     assert!(looks_like_request(&pkt, n), "something was sent => the datagram is a PTPv2/CSPTP Sync carrying a request TLV");
-    // status flag: first value byte of the request TLV; with N <= 56 the request TLV can only sit at offset 44 or 48
-    let tlv_at = if be16(&pkt, 44) == 0xff00 { 44 } else { 48 };
+    // status flag: first value byte of the request TLV; with N <= 56 the request TLV sits at offset 44, 48 or 50
+    let tlv_at = if be16(&pkt, 44) == 0xff00 { 44 } else if be16(&pkt, 46) == 0 { 48 } else { 50 };
     check_answer(&env, &pkt, &rec, pkt[tlv_at + 4] & 1 != 0);
-    kani::cover!(true, "an arbitrary datagram was answered");
+    kani::cover!(true, "an arbitrary Sync datagram was answered");
     kani::cover!(n > be16(&pkt, 2) as usize, "answered a request with trailing padding");
 }
 
+/// Every CSPTP (sdoId 0x3xx) Sync-typed datagram of length <= 52.
 #[kani::proof]
 #[kani::unwind(5)]
 fn c45_handle_any() {
-    handle_any::<52>();
+    handle_any::<52>(0x30);
 }
 
 #[kani::proof]
 #[kani::unwind(5)]
 fn c45_handle_any_56() {
-    handle_any::<56>();
+    handle_any::<56>(0x30);
+}
+
+/// Every other first octet class: the nine non-Sync message types and an undefined type under the
+/// CSPTP sdoId, and a Sync under a foreign sdoId: never answered.
+#[kani::proof]
+#[kani::unwind(13)]
+fn c45_handle_other() {
+    let firsts: [u8; 11] = [0x31, 0x32, 0x33, 0x38, 0x39, 0x3a, 0x3b, 0x3c, 0x3d, 0x34, 0x00];
+    let mut i = 0;
+    while i < 11 {
+        handle_other::<52>(firsts[i]);
+        i += 1;
+    }
+    kani::cover!(true, "all first-octet classes visited");
 }
